@@ -23,10 +23,18 @@ def run(tier, seed):
             e["_args"] = ["--noheaps"]
             e["_tag"] = "tspt"
     n = len(envs)
+    # targeted histories under the purge / commit modes: purged memory of freed multi-block objects re-used for ordinary segments
+    extra = []
+    for dec in ("0", "1"):
+        for delay in ("0", "10"):
+            extra.append({"MIMALLOC_PURGE_DECOMMITS": dec, "MIMALLOC_PURGE_DELAY": delay, "_args": ["--workload", "reuse", "--rounds", "2"], "_tag": "reuse.dec%s.d%s" % (dec, delay),
+                          "_builds": ["rel", "dbg"] if tier == "quick" else None})
+    extra.append({"MIMALLOC_PURGE_DECOMMITS": "0", "MIMALLOC_EAGER_COMMIT": "0", "MIMALLOC_ARENA_EAGER_COMMIT": "0", "MIMALLOC_PURGE_DELAY": "0",
+                  "_args": ["--workload", "reuse", "--rounds", "2"], "_tag": "reuse.dec0.lazy", "_builds": ["rel", "dbg"] if tier == "quick" else None})
     # one execution per option row and build (quick: rows cycle over the builds)
     nr = (max(6, (n + 2) // 3), n)
     return apifam.run_api("C13", tier, seed, profiles=["c01", "c04", "big", "c05", "c12", "c03", "big"], builds=["rel", "dbg", "sec"],
                           own_guards=GUARDS, crash_decisive=True, nruns=nr, ops=(1500, 4000), maxlive=(100, 400), gen=(0, 0),
-                          extra_args=["--clock", "40"], envs=envs, shim=True, group=2,
+                          extra_args=["--clock", "40"], envs=envs, shim=True, group=2, extra_runs=extra,
                           level_extra={"option_rows": n, "option_rows_sample": rows[:3], "covering": "pairwise (greedy, seeded) over " + ", ".join(sorted(OPTS))},
                           assumptions=["decommitted memory being read by the allocator is observable only in dbg/sec builds (PROT_NONE => crash event)"])
